@@ -24,6 +24,9 @@ import (
 //   retry.go validateToken:  `abs(now.Sub(when))` -> `now.Sub(when)`                                        VerifC31_issue_validate
 //   stateless_reset.go:      `defer g.mac.Reset()` -> no-op                                                 VerifC31_reset_token
 //   retry.go parseRetryPacket: pseudo-packet built with an empty original DCID                              VerifC31_retry_packet
+//   retry.go validateToken: nonce split derived from len(dstConnID) instead of maxConnIDLen (seed C31-A)     VerifC31_issue_validate_lens
+//   stateless_reset.go: the two defers swapped, Reset after Unlock (seed C31-B)                             VerifC31_reset_token (lock
+//       discipline, replays natively) + VerifC31_reset_concurrent (symbolic scheduler: wrong token on an interleaving)
 //
 // Engine caveat: the harness that first needs package time (VerifC31_issue_validate) must run before the one that
 // turns *c31mac into a hash.Hash (VerifC31_reset_token): x/tools go/ssa canonicalises signatures ignoring receivers,
